@@ -24,7 +24,7 @@ use rayon::prelude::*;
 use serde_json::{json, Value};
 use std::{collections::BTreeMap, sync::Arc};
 
-pub const ZONES: [&str; 9] = [
+pub const ZONES: [&str; 11] = [
     "UTC",
     "Asia/Kolkata",
     "Asia/Kathmandu",
@@ -34,6 +34,9 @@ pub const ZONES: [&str; 9] = [
     "America/Havana",
     "America/Sao_Paulo",
     "Pacific/Apia",
+    // clocks go back at 24:00: the repeated hour ends exactly on a day boundary
+    "Africa/Cairo",
+    "America/Santiago",
 ];
 
 const UNITS: [&str; 7] = ["second", "minute", "hour", "day", "week", "month", "year"];
@@ -178,6 +181,34 @@ fn check_instant(ts: i64, trans: &[i64], zone: &str, acc: &mut Acc) {
                                 case(),
                             );
                             continue;
+                        }
+                    }
+                }
+                // The answer is the instant of an offset change itself (and nothing changes before it): then "in between"
+                // is empty, and the wall-clock reading that instant really shows must be the boundary.  (chrono calls the
+                // closed end of a repeated interval ambiguous; its earlier candidate is the change itself, where the clock
+                // shows the *start* of the repeated interval.)
+                {
+                    let nts0 = next.timestamp();
+                    let i0 = trans.partition_point(|t| *t <= ts);
+                    if i0 < trans.len() && trans[i0] == nts0 {
+                        if let (chrono::LocalResult::Single(shown), Some(want)) = (Local.timestamp_opt(nts0, 0), reference_next(now.naive_local(), unit, n, modulate)) {
+                            // (a boundary that falls into a gap does not exist; moving it to the end of the gap is fine)
+                            // (chrono also reports the first instant of a gap under the reading that was skipped)
+                            let really_shows = |t: chrono::DateTime<Local>| matches!(Local.timestamp_opt(t.timestamp(), 0), chrono::LocalResult::Single(x) if x.naive_local() == want);
+                            let exists = match Local.from_local_datetime(&want) {
+                                chrono::LocalResult::None => false,
+                                chrono::LocalResult::Single(t) => really_shows(t),
+                                chrono::LocalResult::Ambiguous(a, b) => really_shows(a) || really_shows(b),
+                            };
+                            if exists && shown.naive_local() != want {
+                                acc.hit(
+                                    format!("off-boundary:at-the-offset-change:{}", unit),
+                                    format!("TZ={} now={} {} x{} modulate={}: next={} is the instant of an offset change where the clock shows {}, the boundary is {}", zone, now.to_rfc3339(), unit, n, modulate, next.to_rfc3339(), shown.naive_local(), want),
+                                    case(),
+                                );
+                                continue;
+                            }
                         }
                     }
                 }
